@@ -43,11 +43,12 @@ pub fn configs(tier: Tier) -> Vec<Config> {
 
 /// Build and run one configuration; returns type -> digest.
 pub fn digests(c: &Config) -> Result<BTreeMap<String, String>, String> {
-	let target = format!("{}/target/digest-{}", VERIF, c.base);
+	let target = format!("{}/target/digest-{}", verif_root(), c.base);
 	let mut cmd = Command::new("cargo");
 	cmd.args(["build", "--release", "--offline", "--no-default-features", "--target-dir", &target])
-		.current_dir(format!("{}/harness_digest", VERIF))
-		.env_remove("RUSTFLAGS");
+		.current_dir(format!("{}/harness_digest", verif_root()))
+		.env_remove("RUSTFLAGS")
+		.env_remove("CARGO_TARGET_DIR");
 	if !c.features.is_empty() {
 		cmd.arg("--features").arg(c.features.join(" "));
 	}
